@@ -124,7 +124,7 @@ CHECKS["C17"] = dict(
 NOT_APPLICABLE = {}
 
 # thorough tiers that were run clean on the unchanged tree; the others are quick only
-THOROUGH_OK = {"C01", "C03", "C04", "C05", "C06", "C07", "C08", "C09", "C12", "C13", "C14", "C15", "C16", "C18", "C19", "C20"}
+THOROUGH_OK = {"C17", "C01", "C03", "C04", "C05", "C06", "C07", "C08", "C09", "C12", "C13", "C14", "C15", "C16", "C18", "C19", "C20"}
 
 props = [json.loads(l)["id"] for l in open("/verif/properties.jsonl")]
 checks = []
